@@ -197,6 +197,17 @@ func c09Run(inI interface{}, env *Env) *Failure {
 							half := len(op.Val) / 2
 							_, e1 := w.Write([]byte(op.Val[:half]))
 							simrt.Yield()
+							if len(op.Val)%3 == 0 {
+								// the owner of an open stream looks at the directory of its file (and at a
+								// neighbour) before it goes on: legal, and must not wait for anybody who is
+								// busy with that directory
+								dir := "."
+								if i := strings.LastIndex(op.Path, "/"); i >= 0 {
+									dir = op.Path[:i]
+								}
+								_, _ = fs.ReadDir(dir)
+								_ = fs.IsExist(dir + "/f2")
+							}
 							_, e2 := w.Write([]byte(op.Val[half:]))
 							e3 := w.Close()
 							for _, e := range []error{e1, e2, e3} {
